@@ -45,6 +45,7 @@ class Walker(ExprMixin):
         self.tag = eng.tag_of(cv)
         self.effs: Set[Tuple[str, str]] = set()
         self.tries: List[TryFrame] = []
+        self.flag_tests: Dict[str, ast.expr] = {}  # local flag -> the type test it was assigned (x_is_bool = isinstance(x, T))
         self.rets: List[Val] = []
         self.env: Dict[str, Val] = dict(cv.env)
         self.node = cv.node
@@ -233,6 +234,17 @@ class Walker(ExprMixin):
         if isinstance(target, ast.Name):
             self.env[target.id] = v
             srcn0 = strip_cast(src) if src is not None else None
+            self.flag_tests.pop(target.id, None)
+            if isinstance(srcn0, ast.Call) and dotted(srcn0.func) == "len" and len(srcn0.args) == 1:
+                subjects = {n.id for n in ast.walk(srcn0) if isinstance(n, ast.Name)} - {"len"}
+                stored = {n.id for n in ast.walk(self.node) if isinstance(n, ast.Name) and isinstance(n.ctx, ast.Store)}
+                if not (subjects & stored):
+                    self.flag_tests["#len:" + target.id] = srcn0
+            if srcn0 is not None and self.is_type_test(srcn0):
+                subjects = {n.id for n in ast.walk(srcn0) if isinstance(n, ast.Name)}
+                stored = {n.id for n in ast.walk(self.node) if isinstance(n, ast.Name) and isinstance(n.ctx, ast.Store)}
+                if not (subjects & stored):
+                    self.flag_tests[target.id] = srcn0
             self.env.pop(target.id + "#of", None)
             if isinstance(srcn0, ast.Subscript) and isinstance(srcn0.value, ast.Attribute) and srcn0.value.attr == "children" \
                     and isinstance(srcn0.value.value, ast.Name) and v.rules is not None:
@@ -413,7 +425,21 @@ class Walker(ExprMixin):
         ok = self._narrow(strip_cast(test), pol, env)
         return env, ok
 
+    def is_type_test(self, e: ast.expr) -> bool:
+        e = strip_cast(e)
+        if isinstance(e, ast.UnaryOp) and isinstance(e.op, ast.Not):
+            return self.is_type_test(e.operand)
+        if isinstance(e, ast.BoolOp):
+            return all(self.is_type_test(v) for v in e.values)
+        if isinstance(e, ast.Call) and dotted(e.func) == "isinstance" and len(e.args) == 2:
+            return True
+        if isinstance(e, ast.Compare) and len(e.ops) == 1 and isinstance(e.ops[0], (ast.Is, ast.IsNot)) and isinstance(e.comparators[0], ast.Constant) and e.comparators[0].value is None:
+            return True
+        return False
+
     def _narrow(self, t: ast.expr, pol: bool, env: Dict[str, Val]) -> bool:
+        if isinstance(t, ast.Name) and t.id in self.flag_tests:
+            return self._narrow(strip_cast(self.flag_tests[t.id]), pol, env)
         if isinstance(t, ast.UnaryOp) and isinstance(t.op, ast.Not):
             return self._narrow(strip_cast(t.operand), not pol, env)
         if isinstance(t, ast.BoolOp):
@@ -448,6 +474,8 @@ class Walker(ExprMixin):
             return True
         if isinstance(t, ast.Compare) and len(t.ops) == 1:
             left, op, right = strip_cast(t.left), t.ops[0], self.display_of(t.comparators[0])
+            if isinstance(left, ast.Name) and ("#len:" + left.id) in self.flag_tests:
+                left = self.flag_tests["#len:" + left.id]  # n = len(x.children); if n == 1: ...
             # x is None / x is not None
             if isinstance(op, (ast.Is, ast.IsNot)) and isinstance(right, ast.Constant) and right.value is None:
                 want_none = isinstance(op, ast.Is) == pol
